@@ -138,8 +138,29 @@ def do_case(ctx, inp):
         ctx.fail("A-b-split-wrong", {"A": A.tolist(), "b": b.tolist()})
 
 
+def do_no_columns(ctx, inp):
+    """a polyhedron with no variable columns (only the support column): A is the m x 0 matrix over no variables, b the column"""
+    bs = inp["b"]
+    ctx.case(inp, True, {"polyhedron-without-variable-columns"})
+    first = puan.variable.support_vector_variable() if not inp.get("named") else puan.variable("b", (1, 1))
+    g = pnd.ge_polyhedron(np.array([[v] for v in bs], dtype=np.int64), variables=[first]) if inp.get("labelled") else \
+        pnd.ge_polyhedron(np.array([[v] for v in bs], dtype=np.int64))
+    try:
+        A, b = g.A, g.b
+        A2, b2 = g.to_linalg()
+        got = {"A_shape": list(np.asarray(A).shape), "A_vars": [key(v.id) for v in A.variables], "b": [int(x) for x in np.asarray(b).tolist()],
+               "linalg_A_shape": list(np.asarray(A2).shape), "linalg_b": [int(x) for x in np.asarray(b2).tolist()]}
+    except Exception as e:
+        ctx.fail("A-or-b-raised-on-a-polyhedron-without-variable-columns", {"b": bs, "exception": f"{type(e).__name__}: {str(e)[:120]}"}); return
+    want = {"A_shape": [len(bs), 0], "A_vars": [], "b": bs, "linalg_A_shape": [len(bs), 0], "linalg_b": bs}
+    if got != want:
+        ctx.fail("A-b-split-wrong-without-variable-columns", {"got": got, "want": want})
+
+
 def run(ctx):
     rng = ctx.rng
+    for _ in range(12 if ctx.quick else 60):
+        do_no_columns(ctx, {"b": [rng.randint(-3, 4) for _ in range(rng.randint(1, 3))], "labelled": rng.random() < 0.5, "named": rng.random() < 0.3})
     n = (300 if ctx.quick else 5000) * (3 if ctx.search else 1)
     for _ in range(n):
         k = rng.randint(1, 6)
